@@ -120,9 +120,14 @@ func runBlockCrashCase(b *blockCase, profile bool) (vs []Violation, s *sim.Sim, 
 		writerDone = true
 	})
 	for r := 0; r < b.Readers; r++ {
+		r := r
 		name := fmt.Sprintf("reader%d", r)
 		s.Spawn(name, 1+r, func(*sim.Task) { // readers live on other nodes: they survive the writer's crash
-			reg, closeReg, err := e.registry(ctx)
+			mk := e.registry
+			if r%2 == 0 {
+				mk = e.registryRO // what a reader transaction uses
+			}
+			reg, closeReg, err := mk(ctx)
 			if err != nil {
 				return
 			}
@@ -163,6 +168,26 @@ func runBlockCrashCase(b *blockCase, profile bool) (vs []Violation, s *sim.Sim, 
 	for k := range s.CrashedNodes {
 		delete(s.CrashedNodes, k)
 	}
+	e.w.Restart()
+	// first through a read-only registry (a reader transaction may be the first to come by)
+	s.Spawn("after-ro", 8, func(*sim.Task) {
+		reg, closeReg, err := e.registryRO(ctx)
+		if err != nil {
+			add("infra", err.Error())
+			return
+		}
+		defer closeReg()
+		for k := 0; k < b.N; k++ {
+			res, err := reg.Get(ctx, e.payloadID([]sop.UUID{allIDs[k]}))
+			if err != nil || len(res) == 0 || len(res[0].IDs) == 0 {
+				continue // a failed read-only lookup is allowed, a wrong answer is not
+			}
+			if h := res[0].IDs[0]; !okHandle(k, h) {
+				add("mixture-after-restart/read-only", fmt.Sprintf("after the crash (%s) a read-only registry reads handle #%d as %+v: neither the old %+v nor (for the updated one) the new image", fk, k, h, old[k]))
+			}
+		}
+	})
+	s.Run()
 	e.w.Restart()
 	s.Spawn("after", 9, func(*sim.Task) {
 		reg, closeReg, err := e.registry(ctx)
@@ -422,7 +447,11 @@ func runCorruptCase(b *blockCase) (vs []Violation, s *sim.Sim) {
 	}
 	s.Spawn("victim", 0, func(*sim.Task) {
 		for _, op := range b.Ops {
-			reg, closeReg, err := e.registry(ctx)
+			mk := e.registry
+			if op == "getro" {
+				mk = e.registryRO
+			}
+			reg, closeReg, err := mk(ctx)
 			if err != nil {
 				add("infra", err.Error())
 				return
@@ -431,7 +460,7 @@ func runCorruptCase(b *blockCase) (vs []Violation, s *sim.Sim) {
 			var got []sop.Handle
 			k := b.Target
 			switch op {
-			case "get":
+			case "get", "getro":
 				res, err := reg.Get(ctx, e.payloadID(ids))
 				opErr = err
 				if len(res) > 0 {
@@ -449,17 +478,26 @@ func runCorruptCase(b *blockCase) (vs []Violation, s *sim.Sim) {
 			cur := now[blockOff : blockOff+4096]
 			if validBackup {
 				// the backup is restored: the previous valid image must be what is served
-				if op == "get" && opErr == nil {
+				if (op == "get" || op == "getro") && opErr == nil {
 					for _, h := range got {
-						if h.LogicalID == ids[k] && h != v1[k] && h != v2 {
-							add("restored-backup-wrong", fmt.Sprintf("valid backup present; Get returned %+v for the updated handle", h))
+						idx := -1
+						for j := range ids {
+							if ids[j] == h.LogicalID {
+								idx = j
+							}
+						}
+						switch {
+						case idx < 0:
+							add("restored-backup-wrong/"+op, fmt.Sprintf("valid backup present; %s returned a handle with an id that was never written: %+v", op, h))
+						case h != v1[idx] && !(idx == k && h == v2):
+							add("restored-backup-wrong/"+op, fmt.Sprintf("valid backup present; %s returned %+v for handle #%d, its valid images are %+v (and %+v for the updated one)", op, h, idx, v1[idx], v2))
 						}
 					}
 				}
 				return
 			}
 			if opErr == nil {
-				add("corruption-not-reported/"+op, fmt.Sprintf("block with wrong checksum (%s at byte %d) and no valid backup (%s): %s returned no error; handles returned: %d", cs.Kind, cs.Offset, cs.Cow, op, len(got)))
+				add("corruption-not-reported/"+strings.TrimSuffix(op, "ro"), fmt.Sprintf("block with wrong checksum (%s at byte %d) and no valid backup (%s): %s returned no error; handles returned: %d", cs.Kind, cs.Offset, cs.Cow, op, len(got)))
 			}
 			if string(cur) != string(corrupted) {
 				add("corrupt-block-overwritten/"+op, fmt.Sprintf("block with wrong checksum (%s at byte %d) and no valid backup (%s): %s changed the block on disk (err=%v)", cs.Kind, cs.Offset, cs.Cow, op, opErr))
@@ -502,7 +540,7 @@ func runC23(u *Unit) {
 	n := 0
 	for _, sp := range specs {
 		for _, cow := range []string{"none", "stale-valid", "badcrc", "empty"} {
-			for _, ops := range [][]string{{"get"}, {"update"}, {"updnl"}, {"remove"}} {
+			for _, ops := range [][]string{{"get"}, {"getro"}, {"update"}, {"updnl"}, {"remove"}} {
 				if u.Tier != "thorough" && n%3 != u.Index%3 {
 					n++
 					continue
